@@ -9,7 +9,7 @@ import (
 func init() {
 	props["C19"] = runC19
 	runners["glob"] = func(c *Ctx, in map[string]string) {
-		c.compare("glob", in, bl(girc.Glob(in["input"], in["pattern"])), "glob", "spec.glob", hx(in["input"]), hx(in["pattern"]))
+		c.compare("glob", in, c.twice("glob", in, func() string { return bl(girc.Glob(in["input"], in["pattern"])) }), "glob", "spec.glob", hx(in["input"]), hx(in["pattern"]))
 	}
 }
 
